@@ -118,8 +118,12 @@ def one_run(w, ps, m, arg, plan, cold=False):
     w.observer = lambda k, op, path: acc.append(
         {"op": op, "res": injected.get(k - base, "ok") if injected.get(k - base) in ("EACCES", "EPERM") else "ok",
          "phase": phase(w), "path": path})
+    before = False
     for k, kind in plan:
-        if kind == "vanish":
+        if kind == "gone-before":
+            w.vanish(PID)          # the process exits and is reaped between two calls of the caller
+            before = True
+        elif kind == "vanish":
             w.hooks.setdefault(base + k, []).append(lambda: w.vanish(PID))
         elif kind.startswith("vanish:"):
             # a relative (parent / child) of the queried process disappears
@@ -150,7 +154,10 @@ def one_run(w, ps, m, arg, plan, cold=False):
     # (parent() itself answers None when the parent is gone: no such allowance there)
     other_gone = (out == "NSP" and epid is not None and epid != PID and epid not in w.procs
                   and m != "parent")
-    return {"m": m, "arg": arg, "plan": plan, "acc": [{"op": a["op"], "res": a["res"], "phase": a["phase"]} for a in acc],
+    # is_running() answers False, wait() answers None for a process that is gone, process_iter() is no query
+    # about this process; everything else is
+    asks = m not in ("is_running", "wait", "process_iter")
+    return {"before": before, "asks": asks, "m": m, "arg": arg, "plan": plan, "acc": [{"op": a["op"], "res": a["res"], "phase": a["phase"]} for a in acc],
             "paths": [a["path"] for a in acc][:400],
             "out": out, "wellformed": wf, "pidok": pidok, "epid": epid,
             "phaseEnd": "gone" if other_gone else phase(w), "follow": follow, "n": n}
@@ -167,7 +174,8 @@ def fault_chunk(jobs):
 
 
 def signature(rec, clauses):
-    names = ["NoBareError", "WellFormed", "NSPOnlyIfGone", "ZPOnlyIfZombie", "ADOnlyIfDenied", "CarriesPid", "GoneForGood"]
+    names = ["NoBareError", "WellFormed", "NSPOnlyIfGone", "ZPOnlyIfZombie", "ADOnlyIfDenied", "CarriesPid", "GoneForGood",
+             "GoneBefore"]
     failed = [n for n, ok in zip(names, clauses) if not ok]
     kinds = [k for _, k in rec["plan"]]
     where, path = "", ""
@@ -290,6 +298,7 @@ def check(ctx):
         for k in ks:
             for kind in ("vanish", "zombie", "EACCES", "EPERM"):
                 jobs.append((m, arg, [(k, kind)]))
+        jobs.append((m, arg, [(0, "gone-before")]))
         if m in ("parent", "parents", "children", "process_iter"):
             for k in ks:
                 for victim in (PARENT, 80):
@@ -317,7 +326,7 @@ def check(ctx):
     tf = os.path.join(d, "traces.ndjson")
     with open(tf, "w") as f:
         for r0 in recs:
-            f.write(json.dumps({k: r0[k] for k in ("acc", "out", "wellformed", "pidok", "phaseEnd", "follow")}) + "\n")
+            f.write(json.dumps({k: r0[k] for k in ("acc", "out", "wellformed", "pidok", "phaseEnd", "follow", "before", "asks")}) + "\n")
     cfg = os.path.join(d, "t.cfg")
     tlc.write_cfg(cfg, {}, invariants=["Accepted"])
     rt = tlc.run("MidCallTrace", cfg, workers=1, env={"TRACE_FILE": tf}, timeout=1500)
